@@ -74,22 +74,30 @@ Rebuilt(p, mk, args) ==
                                ELSE OrigPiece(p[n], mk, args[fidx(n)], n = 1)])
 \* the class member a field matched (an optional cfparse field reports its blank, too)
 TokOf(e, mk, a) == IF e.k = "optional" /\ mk \in ParseKinds /\ a.orig # <<>> /\ a.orig[1] = " " THEN Tail(a.orig) ELSE a.orig
+\* the argument that belongs to field n: a named field's by its name, the k-th anonymous field's is the k-th
+\* anonymous argument (the statement orders only those; where Match.arguments puts zero-width arguments is open)
 ArgsOk(e, l) ==
    LET fs == Fields(e.pat)
        A  == l.args
+       anonA == SelectSeq(A, IsAnonArg)
+       withName(nm) == {m \in DOMAIN A : A[m].has_name /\ A[m].name = nm}
+       anonIdx(n) == Cardinality({m \in 1..n : fs[m].name = <<>>})
    IN /\ Len(A) = Len(fs)
-      /\ \A n \in DOMAIN fs : A[n].has_name = (fs[n].name # <<>>) /\ A[n].name = fs[n].name
-      /\ \A n \in DOMAIN fs : fs[n].k # "optional" => A[n].has_orig
-      /\ Rebuilt(e.pat, e.kind, A) = Join(l.toks)
-      /\ \A n \in DOMAIN fs :
-            Participates(fs[n], A[n]) =>
-               LET tok == TokOf(fs[n], e.kind, A[n]) IN
-               /\ InClass(fs[n].k, tok)
-               /\ (fs[n].k = "optional" /\ e.kind \in ParseKinds) => A[n].orig[1] = " "
-               /\ A[n].val = Conv(e.kind, fs[n].k, tok, A[n].orig)
+      /\ Len(anonA) = Cardinality({n \in DOMAIN fs : fs[n].name = <<>>})
+      /\ \A n \in DOMAIN fs : fs[n].name # <<>> => Cardinality(withName(fs[n].name)) = 1
+      /\ LET AF == [n \in DOMAIN fs |-> IF fs[n].name # <<>> THEN A[CHOOSE m \in withName(fs[n].name) : TRUE]
+                                                             ELSE anonA[anonIdx(n)]]
+         IN /\ \A n \in DOMAIN fs : fs[n].k # "optional" => AF[n].has_orig
+            /\ Rebuilt(e.pat, e.kind, AF) = Join(l.toks)
+            /\ \A n \in DOMAIN fs :
+                  Participates(fs[n], AF[n]) =>
+                     LET tok == TokOf(fs[n], e.kind, AF[n]) IN
+                     /\ InClass(fs[n].k, tok)
+                     /\ (fs[n].k = "optional" /\ e.kind \in ParseKinds) => AF[n].orig[1] = " "
+                     /\ AF[n].val = Conv(e.kind, fs[n].k, tok, AF[n].orig)
 CallOk(l) ==
    LET A == l.args
-       anon  == SelectSeq(A, LAMBDA a : ~a.has_name)
+       anon  == SelectSeq(A, IsAnonArg)
        named == {n \in DOMAIN A : A[n].has_name}
    IN /\ l.run = "ok" /\ l.calls = 1
       /\ l.pos = [n \in DOMAIN anon |-> anon[n].val]
